@@ -38,8 +38,11 @@ func buildPipeline(g *scheduler.ExecutionGraph, stages []*stageDefinition, cfg *
 			Variables:    variables.FromMap(def.Variables),
 		}
 
-		if stage.Dir != "" {
-			stage.Task.Dir = stage.Dir
+		if stage.Dir != "" && stage.Task != nil {
+			// the task is shared with other stages: the stage's dir goes to a copy
+			t := *stage.Task
+			t.Dir = stage.Dir
+			stage.Task = &t
 		}
 
 		if stage.Name == "" {
